@@ -42,6 +42,11 @@ THEOREMS = [
     dict(name="Snow.C08.stats_at_nucleation_instant_2D", clause="2D: the four temperatures and t_nuc are those of the field of the break step", strength="full"),
     dict(name="Snow.C08.Tnuc_order_of_run_2D", clause="2D: order of the four reported temperatures, on the run's result", strength="full"),
     dict(name="Snow.C08.nonvacuous_2D", clause="2D hypotheses are satisfiable (well-formed 30 x 15 grid)", strength="nonvacuity"),
+    dict(name="Snow.C08.run2D_cool", clause="2D link: a completed S2D.run left the proof-side cooling loop (cool2D / st2D) at r.iCool with that loop state, and its result is assembled from it", strength="full"),
+    dict(name="Snow.C08.Kv_pos_at_crossing_1D", clause="1D: at a stochastic nucleation K_v > 0 (F_rand >= 0, dt > 0)", strength="full"),
+    dict(name="Snow.C08.Tnuc_order_of_stochastic_run", clause="1D, unconditional: min <= mean <= max and min <= T_kin <= T_eq_l for a stochastic nucleation", strength="full"),
+    dict(name="Snow.C08.Kv_pos_at_crossing_2D", clause="2D: at a stochastic nucleation K_v > 0", strength="full"),
+    dict(name="Snow.C08.Tnuc_order_of_stochastic_run_2D", clause="2D, unconditional: min <= mean <= max and min <= T_kin <= T_eq_l for a stochastic nucleation", strength="full"),
 ]
 TRUSTED = [
     "Lean 4.33 kernel; axioms per theorem listed under coverage.axioms",
@@ -53,6 +58,7 @@ TRUSTED = [
     "2D model SnowModel/Snowing2D.lean (work package G) with all flags false = the repaired code in /repo; tied here by real 2D runs",
 ]
 ASSUMPTIONS = [
+    "satisfiability of the hypothesis 'the run completed' (1D: (run1D p).exc = none; 2D: S2D.run ... = .ok r) is NOT witnessed in Lean (the models need exp/pow/sqrt, there is no computable real instance and no Transc instance of Rat); it rests on the differential runs of this check, in which the compiled model and the real code both complete on the same inputs. The 0D non-vacuity theorems are concrete completed runs over the reals.",
     "stochastic nucleation (cnTemp = None); geometry with height > 0, A >= 0, Nz >= 3 for the quadrature facts",
     "every step recorded (<= 10 000 steps) in the runs whose hazard integral is re-computed from recorded fields",
     "continuous comparisons rtol 1e-9 (E recomputed from recorded fields: 1e-6); step indices exactly; "
